@@ -39,6 +39,7 @@ type CoverRec struct {
 	Reached bool
 	Model   map[string]interface{}
 	Native  bool
+	SymOnly bool // refers to stub-internal ghost state that does not exist natively
 }
 
 type NDVar struct {
@@ -89,6 +90,8 @@ type Engine struct {
 	smtDir      string
 	extra       map[string]interface{}
 	fnStats     map[string][3]int
+	panicObls   bool
+	panicSeen   map[string]bool
 	replayer    func(h string, model map[string]interface{}) (failed []string, panicked string, covers []string, err error)
 }
 
@@ -210,6 +213,7 @@ func (pc *pathCtx) panicIf(it *item, cond *Term, kind string, in ssa.Instruction
 	if cond.IsFalse() {
 		return true
 	}
+	pc.e.notePanicSite(kind, in)
 	t, f := pc.e.branch(it.st, cond)
 	if t {
 		ps := it.st.Fork()
@@ -221,6 +225,28 @@ func (pc *pathCtx) panicIf(it *item, cond *Term, kind string, in ssa.Instruction
 	}
 	it.st.Assume(Not(cond))
 	return true
+}
+
+// notePanicSite registers the implicit obligation "this instruction never panics" (it stays
+// "holds" unless a feasible panicking path reaches the harness top level).
+func (e *Engine) notePanicSite(kind string, in ssa.Instruction) {
+	fn := in.Parent()
+	if fn == nil || fn.Pkg == nil || !e.ownPkgs[fn.Pkg.Pkg.Path()] || strings.HasPrefix(fn.Name(), "verif") || strings.HasPrefix(fn.Name(), "Verif") || strings.HasPrefix(fn.Name(), "nd") {
+		return
+	}
+	if !e.panicObls {
+		return
+	}
+	site := siteOf(in)
+	id := kind + "@" + site
+	if e.panicSeen == nil {
+		e.panicSeen = map[string]bool{}
+	}
+	if e.panicSeen[id] {
+		return
+	}
+	e.panicSeen[id] = true
+	e.Obls = append(e.Obls, &Obligation{ID: id, Kind: "panic", Site: site, Result: "holds", Harness: e.harness})
 }
 
 // ---------- calls ----------
@@ -470,6 +496,24 @@ func (pc *pathCtx) val(it *item, v ssa.Value) Value {
 	r, ok := it.fr.locals[v]
 	if !ok {
 		unsupported("unbound SSA value %s (%T) in %s", v.Name(), v, it.fr.fn)
+	}
+	if len(it.st.eqs) > 0 {
+		// terms known to equal a constant on this path are read as that constant, so that
+		// lengths and offsets fixed by an earlier test stay out of the solver
+		switch x := r.(type) {
+		case *Term:
+			if c, ok := it.st.eqs[x.ID]; ok {
+				return c
+			}
+		case VSlice:
+			if x.Bytes {
+				x.Off, x.Len, x.Cap = it.st.concOr(x.Off), it.st.concOr(x.Len), it.st.concOr(x.Cap)
+				return x
+			}
+		case VString:
+			x.Len = it.st.concOr(x.Len)
+			return x
+		}
 	}
 	return r
 }
